@@ -70,7 +70,7 @@ def obligations(tier):
     if tier != "quick":
         sets = [("D18", 5, ["s/0", "a/0", "b/0", "c/0", "j/0"]), ("D04", 4, ["s/0", "a/0", "b/0", "j/0"]), ("D11", 4, ["w/0", "z/0"]), ("D01", 3, ["a/0", "b/0", "c/0"]), ("D12p", 6, ["a/0", "b/0", "c/0", "r/0", "j/0"])]
     for did, steps, labels in sets:
-        o = ob("C17", "e2c.explicit." + did, "vt.harness.C17:rerun_twin", {"did": did, "steps": steps, "mode": "explicit", "rerun_order": tier != "quick"}, timeout=900)
+        o = ob("C17", "e2c.explicit." + did, "vt.harness.C17:rerun_twin", {"did": did, "steps": steps, "mode": "explicit", "rerun_order": False}, timeout=900 if tier == "quick" else 3600)
         o["antecedents"] = ante
         if tier == "quick" and did == "D18":
             obs.extend(rerun_sets(o, labels, 1))
@@ -79,7 +79,7 @@ def obligations(tier):
             o2["fixed"] = {"rr:a/0": True, "rr:c/0": True, "rr:b/0": False, "rr:j/0": False}
             obs.append(o2)
         else:
-            obs.extend(rerun_sets(o, labels, 2 if tier == "quick" else len(labels)))
+            obs.extend(rerun_sets(o, labels, 2 if tier == "quick" else 3))
     for mode in ("default", "explicit"):
         o = ob("C17", "e2c.%s.abend.D11" % mode, "vt.harness.C17:rerun_twin", {"did": "D11", "steps": 4, "mode": mode, "statuses": ["succeeded", "failed", "timeout", "abandoned"], "rerun_order": False}, timeout=900)
         o["antecedents"] = ante
